@@ -58,6 +58,8 @@ var c14Callables = []c14Callable{
 	{"uf", "SSI"},
 	// methods whose exported names begin with a non-ASCII upper case letter
 	{"obj.Ünï", "SS"}, {"pobj.Élan", "SI"},
+	// a pointer-receiver method of a defined type that is not a struct, reached through a pointer
+	{"pstack.Note", "SI"},
 }
 
 type c14Methods struct {
@@ -73,8 +75,14 @@ func (m *c14Methods) NilSafe(a string) string {
 }
 func (m c14Methods) Join(a, b string) string       { return m.rec.note("Join", a, b) }
 func (m *c14Methods) PJoin(a string, b int) string { return m.rec.note("PJoin", a, b) }
-func (m c14Methods) Ünï(a, b string) string        { return m.rec.note("Ünï", a, b) }
-func (m *c14Methods) Élan(a string, b int) string  { return m.rec.note("Élan", a, b) }
+
+// c14Notes: a defined slice type with a pointer-receiver method
+type c14Notes []c14Rec
+
+func (n *c14Notes) Note(a string, b int) string { return (*n)[0].note("Note", a, b) }
+
+func (m c14Methods) Ünï(a, b string) string       { return m.rec.note("Ünï", a, b) }
+func (m *c14Methods) Élan(a string, b int) string { return m.rec.note("Élan", a, b) }
 
 func c14Vars(log *[]string, jfName string) jet.VarMap {
 	r := c14Rec{log}
@@ -149,6 +157,7 @@ func c14Vars(log *[]string, jfName string) jet.VarMap {
 			rt.Write([]byte("LZ"))
 		}))
 	})
+	vars.Set("pstack", &c14Notes{r})
 	vars.Set("obj", c14Methods{rec: r, Tag: "o"})
 	vars.Set("pobj", &c14Methods{rec: r, Tag: "p"})
 	vars["nilv"] = reflect.Value{}
@@ -408,6 +417,8 @@ func (c c14Case) apply() (string, []string) {
 			cur = m.Join(args[0].(string), args[1].(string))
 		case "pobj.PJoin":
 			cur = m.PJoin(args[0].(string), args[1].(int))
+		case "pstack.Note":
+			cur = r.note("Note", args...)
 		case "obj.Ünï":
 			cur = m.Ünï(args[0].(string), args[1].(string))
 		case "pobj.Élan":
